@@ -7,6 +7,8 @@ import (
 	"fmt"
 	"reflect"
 	"strings"
+
+	"github.com/hashicorp/go-hclog"
 )
 
 // Shared specification vocabulary of the resolver harnesses (DESIGN.md §4):
@@ -32,12 +34,12 @@ func (hP2) hIsI() {}
 type hI interface{ hIsI() }
 
 const (
-	hTP0 = 0
-	hTP1 = 1
-	hTP2 = 2
-	hTI  = 3
-	hTP3 = 4
-	hTP4 = 5
+	hTP0    = 0
+	hTP1    = 1
+	hTP2    = 2
+	hTI     = 3
+	hTP3    = 4
+	hTP4    = 5
 	hTList  = 6 // hList
 	hTSlice = 7 // []int
 	hTPtr0  = 8 // *hP0 (unnamed type)
@@ -720,6 +722,13 @@ func hSymLabel(fam int, tag string, concreteOnly bool) hLabel {
 }
 
 var hIota = [10]int{0, 1, 2, 3, 4, 5, 6, 7, 8, 9}
+
+// hQuietLogs is called by the native replay test before it runs a harness: the
+// repository's own tests switch the default logger to TRACE, and every log call
+// takes the logger's mutex, which orders otherwise unordered accesses of two
+// goroutines and hides data races from the race detector. (gose models logging
+// as inert.)
+func hQuietLogs() { hclog.L().SetLevel(hclog.Error) }
 
 // hPick is vnChoice made concrete (forks over the k values in increasing order).
 func hPick(name string, k int, idx ...int) int { return hIota[vnChoice(name, k, idx...)] }
